@@ -226,6 +226,10 @@ def main(args: Any) -> int:
         rep.candidate(key, what, model, replay_factory(kind, fname, op, lk, rk, what, model, detail))
     if not found:
         rep.sample({"note": "all paths total and cost-bounded", "example_combo": ["int", "**", "int"]})
+    if not getattr(args, "only", None) or "K2" in args.only:
+        from vf import c20_deferral
+
+        c20_deferral.run(rep, args.tier)
     return rep.finish()
 
 
